@@ -260,6 +260,16 @@ def classify(r):
         p = recs[0].get("pkgs", {}).get(e["t"])
         if p is not None and not any(x["ev"] == "ParseBegin" and x["p"] == p for x in before):
             return "C04 command-started-before-its-package-was-looked-at"
+        # C05's own clause: a target whose dependency (direct or not) failed never runs
+        failed = {x["t"] for x in before if x["ev"] == "End" and x.get("rc") != 0}
+        deps, seen, todo = recs[0]["deps"], set(), [e["t"]]
+        while todo:
+            for d in deps.get(todo.pop(), []):
+                if d not in seen:
+                    seen.add(d)
+                    todo.append(d)
+        if seen & failed:
+            return "C05 command-ran-although-a-dependency-failed"
         return "C04 command-started-before-dependency-succeeded"
     if e.get("ev") == "ParseBegin":
         return "C04 package-parsed-more-than-once"
